@@ -334,6 +334,51 @@ def rule_input_closure(ctx, px):
            "--lookup-dir (whose content shapes the generated code) are never listed", li.node.lineno)
 
 
+def rule_template_listing(ctx, px):
+    R = "R-C08-TEMPLATE-LISTING"
+    ctx.rule(
+        R,
+        "the template list of the type generator is the loader's complete enumeration; if templates are left out when "
+        "serialization support is omitted, each of them must be reachable (include/import/extends) only under "
+        "`not nunavut.support.omit` in every built-in language - otherwise a template that is read is not listed",
+    )
+    f = px.func(GEN_MOD, "CodeGenerator.get_templates")
+    rets = [r for r in ast.walk(f.node) if isinstance(r, ast.Return) and r.value is not None]
+    full = len(rets) >= 1 and all(ast.unparse(r.value) == "self._dsdl_template_loader.get_templates()" for r in rets)
+    if full:
+        ctx.ob(R, f.module.rel, f"{f.short} :: returns the loader's complete enumeration", True, "", f.node.lineno)
+        return
+    # filtered listing: which stems can be dropped?
+    stems = set()
+    names = {n.id for n in ast.walk(f.node) if isinstance(n, ast.Name)} | {n.attr for n in ast.walk(f.node) if isinstance(n, ast.Attribute)}
+    consts = [c.value for c in ast.walk(f.node) if isinstance(c, ast.Constant) and isinstance(c.value, str)]
+    cls = f.cls
+    for st in (cls.node.body if cls else []) + f.module.tree.body:
+        if isinstance(st, (ast.Assign, ast.AnnAssign)):
+            tg = st.targets[0] if isinstance(st, ast.Assign) else st.target
+            if isinstance(tg, ast.Name) and tg.id in names and st.value is not None:
+                consts += [c.value for c in ast.walk(st.value) if isinstance(c, ast.Constant) and isinstance(c.value, str)]
+    stems = {c.split(".")[0] for c in consts if c and c.replace("_", "").replace(".j2", "").isalnum() and len(c) < 40}
+    from nvsa import j2front
+
+    ts = j2front.TemplateSet(ctx.root)
+    n = 0
+    for lang in sorted({t.lang for t in ts.templates}):
+        orc = j2front.GuardOracle(ts, lang)
+        for t in ts.of_lang(lang, "templates"):
+            if t.path.stem not in stems:
+                continue
+            n += 1
+            ok = orc.guarded(t, (), lambda facts: ("nunavut.support.omit", False) in facts)
+            ctx.ob(R, t.rel, f"{f.short} may leave out `{t.name}` when support is omitted", ok,
+                   "only loaded under `not nunavut.support.omit`" if ok else
+                   f"`{t.name}` is imported/included outside a `not nunavut.support.omit` guard in language {lang}: it is read on every run "
+                   "but --list-inputs --omit-serialization-support does not name it", f.node.lineno)
+    if n == 0:
+        ctx.ob(R, f.module.rel, f"{f.short} :: filtered template listing", False,
+               "the listing is filtered in a way the analyser cannot relate to the templates (stems: %s)" % sorted(stems), f.node.lineno)
+
+
 def rule_no_bytecode_cache(ctx, px):
     R = "R-C08-NO-CACHE"
     ctx.rule(R, "the Jinja environment is created without a bytecode cache (loading templates must not write to disk)")
@@ -370,4 +415,5 @@ def run(ctx):
     rule_dryrun_flow(ctx, px)
     rule_list_sibling(ctx, px)
     rule_input_closure(ctx, px)
+    rule_template_listing(ctx, px)
     rule_no_bytecode_cache(ctx, px)
